@@ -1052,6 +1052,8 @@ func runC06(c *Ctx) {
 	})
 	r.Count("random_batches", int64(nRandom))
 
+	c06Rewrite(c, corpus)
+
 	logins := genLoginCases(g)
 	c.parallel(len(logins), func(i int) { x.loginCheck(logins[i]) })
 	r.Count("login_cases", int64(len(logins)))
